@@ -227,6 +227,8 @@ where
         let _e = span.enter();
 
         tracing::debug!(frame = ?item, "send");
+        #[cfg(feature = "verif")]
+        crate::verif::event(crate::verif::Ev::FrameOut);
 
         match item {
             Frame::Data(mut v) => {
@@ -374,5 +376,17 @@ mod unstable {
         pub fn get_ref(&self) -> &T {
             &self.inner
         }
+    }
+}
+
+#[cfg(feature = "verif")]
+impl<T, B> FramedWrite<T, B> {
+    pub(crate) fn verif_fill(&self, s: &mut crate::verif::CodecStats) {
+        let buf = self.encoder.buf.get_ref();
+        s.write_buffer_len = buf.len() - (self.encoder.buf.position() as usize).min(buf.len());
+        s.write_has_next = self.encoder.next.is_some();
+        let (size, max) = self.encoder.hpack.verif_table_size();
+        s.hpack_encoder_size = size;
+        s.hpack_encoder_max = max;
     }
 }
